@@ -19,6 +19,15 @@ TEXT = {
         "level_note": "trusted: solver soundness; CPython float_rem encoding with fmod abstracted by its C99 properties; "
                       "congruence clause in model R (machine arithmetic treated as mathematical); settings' length tuples are not aliased by argument lists",
     },
+    "C05": {
+        "technique": "contract-based deductive verification: representation invariant + per-call contract on Lifting.insert, "
+                     "loop invariants over prefix sums on the three get_active_identifier walks, interval-tiling lemmas; z3/cvc5 (model R)",
+        "level_text": "insert and the three selection walks are verified for all table sizes, insertion orders and the whole "
+                      "closed range of the draws: the returned unit's cumulative interval contains the walk position, only "
+                      "strictly negative derivatives are selectable, frames proved; the flow balance follows by the tiling lemmas",
+        "level_note": "trusted: solver soundness; model R (machine arithmetic treated as mathematical); inductive consequences "
+                      "psum-nonneg/psum-frame of the prefix-sum axioms; summation of the tiling step over the positive entries is meta-level induction",
+    },
 }
 
 NOT_APPLICABLE = {
